@@ -358,7 +358,13 @@ def check_kernel(out, facts):
             if not (chunk.startswith('(len(sink') and ' Add min(' in chunk):
                 why.append('K4 length is not extended by exactly the chunk: ' + chunk)
             r = sym.vstr(sym.deinit(strip(rd[0][1])))
-            if not (r.startswith('index_mut(as_mut_byte_slice(sink') and 'RangeFrom::RangeFrom{0: (len(sink' in r and 'Mul size_of())})' in r):
+            # any spelling of the tail view vec_bytes[old_len * size_of::<T>()..] (`[n..]`, `split_at_mut(n).1`, ...)
+            sv_ = slice_view(sym.deinit(strip(rd[0][1])))
+            okr = False
+            if sv_ is not None and sv_[2] is None and sv_[1] is not None:
+                base_s, from_s = sym.vstr(sym.deinit(sv_[0])), sym.vstr(sv_[1])
+                okr = base_s.startswith('as_mut_byte_slice(sink') and from_s.startswith('(len(sink') and from_s.endswith('Mul size_of())')
+            if not okr:
                 why.append('K4 bytes read are not vec_bytes[old_len * size_of::<T>()..]: ' + r)
         out.ob('K4-K5', 'helper:bulk [%s]' % cfg, not why, '; '.join(why), h['loc'], sample={'term': sym.tstr(t)[:300]})
     else:
@@ -438,7 +444,11 @@ def check_arrays(out, facts):
         why.append('expected one bulk read')
     else:
         buf = sym.vstr(sym.deinit(strip(reads[0][1])))
-        if buf != 'from_raw_parts_mut(cast(as_mut_ptr(dst)), %s())' % role_name(facts, 'array_bytesize'):
+        # the destination pointer reinterpreted as bytes, by `.cast()` (once or twice) or by an `as` cast
+        import re as _re
+        buf_n = _re.sub(r'\(as_mut_ptr\(dst\) as \*mut [^)]*\)', 'cast(as_mut_ptr(dst))', buf)
+        buf_n = _re.sub(r'cast\((cast\(as_mut_ptr\(dst\)\))\)', r'\1', buf_n)
+        if buf_n != 'from_raw_parts_mut(cast(as_mut_ptr(dst)), %s())' % role_name(facts, 'array_bytesize'):
             why.append('bulk read does not cover exactly calculate_array_bytesize::<T, N>() bytes of the destination: ' + buf)
     g = roles(facts).get('array_bytesize')
     if g:
